@@ -13,10 +13,30 @@ CHECKS = {
                 text='Kani/CBMC decides, over the compiled code, the number-admission kernel of canonical JSON for every 64-bit integer and every f64 bit pattern (admitted iff integer and |n| <= 2^53-1, value preserved both ways); the formatter/parser of serde_json is outside the claim',
                 note='partial claim (DESIGN §4 C01): serde_json formatting/parsing, recursive containers and String ordering are trusted; drop glue skipped with mem::forget',
                 ref='DESIGN.md §4 C01'),
+    'C02': dict(engine='mirsym', technique='symbolic execution of rustc MIR (regenerated from /repo) with cryptographic / serialization primitives as tagged ideal values; structural verdicts + SMT (z3) for the symbolic sizes; native replay with the real crates',
+                text='sign_json, verify_json and hash_and_sign_event executed from the MIR of ruma-signatures on objects of every enumerated shape with Ed25519 / SHA-256 / base64 / serde_json as ideal tagged primitives: decides the text signed (object without signatures and unsigned), placement under signatures[entity][ed25519:<version>] as unpadded standard base64, preservation of earlier signatures / unsigned / other fields, atomic failure, and that verify_json accepts iff every entity named in signatures has a valid supported signature over that text under the supplied keys (10 states per entity, two entities)',
+                note='partial claim: the signature scheme (ed25519-dalek vs RFC 8032), base64 and serde_json canonical serialization are library code and ideal here (DESIGN §4 C02); shapes are enumerated by the harness, not symbolic; native replays use the real crates and an independent canonical-JSON writer',
+                ref='DESIGN.md §4 C02'),
+    'C03': dict(engine='mirsym', technique='symbolic execution of rustc MIR (regenerated from /repo) with cryptographic / serialization primitives as tagged ideal values; structural verdicts + SMT (z3) for the symbolic sizes; native replay with the real crates',
+                text='(S) servers_to_check_signatures executed from MIR on every enumerated event shape (type, sender, event_id, membership, third_party_invite, join_authorised_via_users_server present / absent / wrong type; symbolic user and server names) for all 11 room versions: z3 decides demanded servers == sender (unless third-party invite) + event-id server (v1-2) + authoriser (v8+); (V) verify_event on every combination of per-signer signature states and hash states: Ok iff every demanded server has a valid supported signature over the canonical JSON of the redacted event, Verified::All iff the stored sha256 is the content hash',
+                note='partial claim: redact is an arbitrary object here (what it keeps: C04); ideal primitives as C02; verify_event scenarios are concrete shapes (one or two demanded signers)',
+                ref='DESIGN.md §4 C03'),
     'C04': dict(engine='mirsym', technique=MIRSYM,
                 text='bounded symbolic execution of the redaction predicates, rule constants (through RoomVersionId::rules) and redact/redact_in_place on symbolic objects for every key/type string <= N bytes and all 11 room versions; z3 compares with spec tables; counterexamples replayed through the public redact API',
                 note='trusted: MIR dump, library models (str, BTreeMap as association list), spec tables in spec/redaction.py; values abstract except third_party_invite',
                 ref='DESIGN.md §4 C04'),
+    'C05': dict(engine='mirsym', technique='symbolic execution of rustc MIR (regenerated from /repo) with cryptographic / serialization primitives as tagged ideal values; structural verdicts + SMT (z3) for the symbolic sizes; native replay with the real crates',
+                text='content_hash and reference_hash executed from MIR for every shape of special fields (hashes / signatures / unsigned present or absent) and every room version with an unconstrained 64-bit serialized length: decides the hashed text (event without exactly unsigned/signatures/hashes; redact(event, version rules) without exactly signatures/unsigned), the digest returned, the alphabet (standard unpadded up to v3, URL-safe from v4) and PduSize iff the text exceeds 65,535 bytes',
+                note='partial claim: SHA-256, base64, serde_json are ideal primitives; redact abstract (C04); native replays recompute with sha2 / base64 / an independent canonical-JSON writer at the size boundary',
+                ref='DESIGN.md §4 C05'),
+    'C06': dict(engine='mirsym', technique=MIRSYM,
+                text='the one order-sensitive kernel within reach: lexicographical_topological_sort executed from MIR under every iteration order of every HashMap / HashSet it walks (symbolic order index per iteration), every DAG over <= 3 nodes (4 thorough), symbolic power levels and timestamps; z3 decides that the emitted order is the specified function of graph and keys, hence independent of hasher seeds, threads and repetition; native replays call it 16 times with fresh RandomState seeds',
+                note='partial claim (DESIGN §4 C06): resolve() as a whole, permutations of the state-set / auth-chain arguments, separate / auth-chain difference and the creator cache are NOT decided; BinaryHeap / HashMap / HashSet are library models',
+                ref='DESIGN.md §4 C06'),
+    'C07': dict(engine='mirsym', technique=MIRSYM,
+                text='the exposed topological sort clause only: lexicographical_topological_sort executed from MIR on every DAG over <= 3 nodes (4 thorough) with every identifier assignment, symbolic power level and timestamp per node, all hash iteration orders; z3 decides every node once, dependencies first, and among ready nodes greatest power level, then earliest timestamp, then smallest event id',
+                note='partial claim (DESIGN §4 C07): equality of resolve() with state resolution v2 on room histories (conflict separation, auth difference, iterative auth checks, mainline ordering) is outside what the engines can encode',
+                ref='DESIGN.md §4 C07'),
     'C08': dict(engine='mirsym', technique=MIRSYM,
                 text='auth_check and everything above the serde seam executed from the MIR of ruma-state-res on a symbolic world (room version 1..11, create / power-levels / join-rules / member state by role, incoming member / message / state / aliases / redaction / third-party-invite / power-levels event with absent / well-typed / malformed fields); z3 decides accepted<=>the authorization rules of the specification (spec/auth_rules.py) and panic-freedom per family and version; counterexamples are concretised to PDUs and replayed through ruma_state_res::event_auth::auth_check',
                 note='trusted: MIR dump, library models, the serde seam (from_raw_json_value / RoomPowerLevelsEvent accessors modelled as absent/ok/malformed fields), the transcription of the rules in spec/auth_rules.py; users of the family @<a-d>:<x-y>; rule 9 decided compositionally (call-site family + unit family with one changed property at a time); signature checks of third-party invites and the restricted-join authoriser signature are not part of auth_check',
@@ -41,6 +61,10 @@ CHECKS = {
                 text='VersionHistory::{select_path, versioning_decision_for, stable_endpoint_for} executed from MIR on symbolic version histories (<= 2 unstable, <= 3 stable paths, optional deprecated/removed, all 15 versions) and symbolic lists of supported versions; z3 decides the selection against the oracle of the property statement; replay through Metadata::make_endpoint_url',
                 note='partial claim (DESIGN §4 C16): only path selection; the macro-generated HTTP conversions, URL percent-encoding and XMatrix are outside; tracing modelled as disabled',
                 ref='DESIGN.md §4 C16'),
+    'C17': dict(engine='mirsym', also_kani=True, technique='symbolic execution of rustc MIR + SMT (z3) for the string / byte scanners; Kani/CBMC for the DER rewrite; bounded; native replay',
+                text='no-panic for the ruma-owned scanners of untrusted input: mxc_uri / key_id validators (every UTF-8 string <= 300 bytes), MatrixId::parse_with_sigil (<= 12 bytes), ContentDisposition::try_from(&[u8]) (every byte string <= 4 bytes quick / 6 thorough), push word matching on UTF-8 text with multi-byte characters (value <= 5, pattern <= 2 bytes), the ring-compat PKCS#8 rewrite of Ed25519KeyPair::from_der (Kani, every byte string <= 8 bytes); ruleset edits are decided by C13',
+                note='partial claim (DESIGN §4 C17): serde_json / serde-derive deserialization, html5ever, http_auth (XMatrix), url::Url are third-party and outside; no claim on stack depth, termination or cross-call effects',
+                ref='DESIGN.md §4 C17'),
     'C19': dict(engine='mirsym', technique=MIRSYM,
                 text='for every derive-/macro-generated string enum discovered in the MIR of ruma-common and ruma-events: symbolic execution of from/as_ref (to_cow_str) over every string <= 64 bytes; z3 decides the round trip modulo declared aliases; spellings compared with spec tables and an independent implementation of the rename rules',
                 note='trusted: MIR dump, library models; hand-written conversions and serde agreement are outside; T instantiated with &str',
@@ -72,9 +96,9 @@ m = {
               'baseline_off_cmd': 'cd /repo && RUSTUP_TOOLCHAIN=1.88.0 cargo nextest run --workspace --no-fail-fast --offline || (cd /repo && RUSTUP_TOOLCHAIN=1.88.0 cargo test --workspace --no-fail-fast --offline)',
               'source_commits': hooks_commits, 'add_only': True},
     'engines': [
-        {'name': 'mirsym', 'path': 'mirsym/', 'serves_properties': [k for k, v in CHECKS.items() if v['engine'] == 'mirsym'],
+        {'name': 'mirsym', 'path': 'mirsym/', 'serves_properties': [k for k, v in CHECKS.items() if v['engine'].startswith('mirsym')],
          'kind_free_text': 'symbolic executor over rustc MIR dumps (regenerated from /repo each run) + z3; library models; native replayer (replay/)'},
-        {'name': 'kani', 'path': 'kani/', 'serves_properties': [k for k, v in CHECKS.items() if v['engine'] == 'kani'],
+        {'name': 'kani', 'path': 'kani/', 'serves_properties': [k for k, v in CHECKS.items() if v['engine'] == 'kani' or v.get('also_kani')],
          'kind_free_text': 'Kani 0.68 / CBMC harness crate with path dependencies on /repo'},
     ],
     'checks': [], 'not_applicable': [], 'notes': 'see DESIGN.md; known-findings.json lists fixed defects',
